@@ -82,6 +82,7 @@ func (c *Ctx) Fail(region, symptom, format string, a ...interface{}) bool {
 	if surveyMode {
 		// development aid (VERIF_SURVEY=1): never used by the registered commands
 		c.classes["SURVEY-FAIL "+region+" | "+symptom]++
+		surveyLog(c.prop, region+" | "+symptom, msg)
 		return true
 	}
 	panic(&Failure{Region: region, Symptom: symptom, Msg: msg})
@@ -153,6 +154,27 @@ type propStats struct {
 }
 
 var surveyMode = os.Getenv("VERIF_SURVEY") == "1"
+
+var (
+	surveyMu   sync.Mutex
+	surveySeen = map[string]int{}
+)
+
+// surveyLog keeps the first messages of every failure class (development aid only).
+func surveyLog(prop, class, msg string) {
+	surveyMu.Lock()
+	defer surveyMu.Unlock()
+	surveySeen[class]++
+	if surveySeen[class] > 4 {
+		return
+	}
+	f, err := os.OpenFile(fmt.Sprintf("/verif/build/survey-%s-%s.log", prop, os.Getenv("VERIF_SHARD")), os.O_APPEND|os.O_CREATE|os.O_WRONLY, 0o644)
+	if err != nil {
+		return
+	}
+	defer f.Close()
+	fmt.Fprintf(f, "=== %s\n%s\n\n", class, msg)
+}
 
 var (
 	mu       sync.Mutex
